@@ -91,6 +91,9 @@ type zzFARRec struct {
 	peer     int // 0/1 -> 127.0.0.1 / 127.0.0.2
 	qfi      [2]uint8
 	nqer     int
+	// the second related PDR (11) has QERs of its own: none, or one with its own QFI
+	nqer2 int
+	qfi2  uint8
 }
 
 func zzFARMsg(seid uint64, farid uint32, f *zzFARRec) []nl.Msg {
@@ -161,6 +164,13 @@ func zzC13Release() {
 		f.qfi[i] = nondetU8("qfi")
 		zzAssume(f.qfi[i] < 64)
 	}
+	if npdr == 2 {
+		f.nqer2 = nondetChoice("nqer-of-second-pdr", 2)
+		if f.nqer2 == 1 {
+			f.qfi2 = nondetU8("qfi-of-second-pdr")
+			zzAssume(f.qfi2 < 64)
+		}
+	}
 	// held packets: two for PDR 10, one for PDR 11 (if related), one for an unrelated PDR and one for another session
 	own := func(p uint16) uint64 { return seid<<16 | uint64(p) }
 	p0 := nondetBytes("pkt0", 2)
@@ -194,13 +204,22 @@ func zzC13Release() {
 			zzAssert("C13.release.get-pdr.own-session", len(s) == 8 && zzLE64(s) == seid)
 			id, _ := zzFindAttr(attrs, gtp5gnl.PDR_ID, 0)
 			var qs []uint32
-			for i := 0; i < f.nqer; i++ {
-				qs = append(qs, uint32(20+i))
+			if zzLE16(id) == 11 {
+				if f.nqer2 == 1 {
+					qs = append(qs, 30)
+				}
+			} else {
+				for i := 0; i < f.nqer; i++ {
+					qs = append(qs, uint32(20+i))
+				}
 			}
 			return zzPDRMsg(seid, uint16(zzLE16(id)), qs), nil
 		case gtp5gnl.CMD_GET_QER:
 			id, _ := zzFindAttr(attrs, gtp5gnl.QER_ID, 0)
 			q := zzLE32(id)
+			if q == 30 {
+				return zzQERMsg(seid, q, f.qfi2), nil
+			}
 			return zzQERMsg(seid, q, f.qfi[q-20]), nil
 		}
 		return nil, nil
@@ -258,16 +277,21 @@ func zzC13Release() {
 			break
 		}
 		zzAssert("C13.release.forw.each-once", nsent == len(held))
-		// the session's QFI: the first non-zero QFI among the PDR's QERs
-		qfi := uint8(0)
-		hasQ := false
+		// the packet's QFI: the first non-zero QFI among the QERs of ITS OWN PDR
+		qfi1 := uint8(0)
+		hasQ1 := false
 		for i := 0; i < f.nqer; i++ {
 			if f.qfi[i] != 0 {
-				qfi, hasQ = f.qfi[i], true
+				qfi1, hasQ1 = f.qfi[i], true
 				break
 			}
 		}
 		for i := 0; i < nsent && i < len(held); i++ {
+			qfi, hasQ := qfi1, hasQ1
+			if i == 2 {
+				// the third held packet belongs to PDR 11
+				qfi, hasQ = f.qfi2, f.nqer2 == 1 && f.qfi2 != 0
+			}
 			b := zzSentBytesOn(conn, i)
 			zzObserve("gpdu", b)
 			want := []byte{127, 0, 0, byte(1 + f.peer)}
